@@ -62,17 +62,17 @@ def gen(ctx, what, sink, handlers, ops, reqs, full, timeout=900):
     return True
 
 
-def share(ctx, src, dst, keep, pred=None):
-    """content-selected seeded share of a behaviour file (TLC's output order is not deterministic)"""
+def share(ctx, src, dst, keep, boost=1.0):
+    """content-selected seeded share of a behaviour file (TLC's output order is not deterministic);
+    behaviours in which some handler may be compressed are `boost` times as likely to be kept"""
     n = 0
     salt = ("%d|" % ctx.seed).encode()
     with open(src) as fh, open(dst, "a") as out:
         for line in fh:
-            if pred and not pred(line):
-                continue
-            if keep < 1.0:
+            k = keep * (boost if '"mode":"gzip"' in line else 1.0)
+            if k < 1.0:
                 h = int.from_bytes(hashlib.sha1(salt + line.encode()).digest()[:4], "big")
-                if h >= keep * 2 ** 32:
+                if h >= k * 2 ** 32:
                     continue
             out.write(line)
             n += 1
@@ -97,7 +97,7 @@ def run_gzip(ctx, behs, what, env=None, timeout=800):
 
 
 def run_proxy(ctx, behs, what, timeout=600):
-    r = ctx.gotest("proxy", ["proxy/c17_test.go"], "^TestVerifC17Proxy$", env={"VERIF_IN": behs}, race=True, timeout=timeout)
+    r = ctx.gotest("proxy", ["proxy/c17_test.go"], "^TestVerifC17Proxy$", env={"VERIF_IN": behs}, race=False, timeout=timeout)
     if not ctx.need_go_ok(r, what):
         return None
     orc = r.of_kind("oracle")
@@ -134,7 +134,7 @@ def run(ctx):
     if ctx.thorough:
         runs = (("pool-4ops", "MCTwo", 4, "MCReqsMid", 1500), ("pool-3handlers", "MCThree", 2, "MCReqsSmall", 900))
     else:
-        runs = (("pool-4ops", "MCTwo", 4, "MCReqsSmall", 200), ("pool-2ops", "MCTwo", 2, "MCReqsMid", 200))
+        runs = (("pool-4ops", "MCTwo", 4, "MCReqsSmall", 200), ("pool-2ops", "MCTwo", 2, "MCReqsPair", 200))
     for what, hs, ops, reqs, to in runs:
         if not mc(ctx, what, hs, ops, reqs, to):
             return
@@ -153,8 +153,8 @@ def run(ctx):
     if not gen(ctx, "two-handlers", two, "MCTwo", 2, ctx.pick("MCReqsPair", "MCReqsMid"), False):
         return
     behs = os.path.join(ctx.tmp, "c17.behs")
-    n1 = share(ctx, one, behs, ctx.pick(0.5, 0.45))
-    n2 = share(ctx, two, behs, ctx.pick(0.35, 0.25))
+    n1 = share(ctx, one, behs, ctx.pick(0.04, 0.2), boost=4.0)
+    n2 = share(ctx, two, behs, ctx.pick(0.03, 0.08), boost=2.0)
 
     # 3. replay against the real handler, concurrently, under the race detector
     r = run_gzip(ctx, behs, "C17 replay", timeout=ctx.pick(400, 850))
@@ -173,7 +173,7 @@ def run(ctx):
 
     # 4. through the real HTTPProxy (upstream performs the script)
     px = os.path.join(ctx.tmp, "c17.proxy")
-    share(ctx, one, px, ctx.pick(0.06, 0.05))
+    share(ctx, one, px, ctx.pick(0.02, 0.03), boost=4.0)
     r = run_proxy(ctx, px, "C17 through HTTPProxy", timeout=ctx.pick(300, 600))
     if r is None:
         return
@@ -206,9 +206,6 @@ def selftest(ctx, one):
     a["handlers"][0]["status"] = 418 if a["handlers"][0]["status"] != 418 else 200           # wrong status
     b = json.loads(json.dumps(pick))
     b["handlers"][0]["modes"] = [{"mode": "plain", "ce": "", "cl": b["handlers"][0]["req"]["cl"]}]   # claims: must not be compressed
-    c = json.loads(json.dumps(pick))
-    c["handlers"][0]["ops"] = [o for o in c["handlers"][0]["ops"]]                          # claims the inner handler wrote something else
-    c["handlers"][0]["ops"][-1] = dict(c["handlers"][0]["ops"][-1])
     path = os.path.join(ctx.tmp, "c17.selftest")
     vf.write_ndjson(path, [a, b])
     r = run_gzip(ctx, path, "C17 self-test", env={"VERIF_C17_WORKERS": "2"}, timeout=300)
